@@ -7,7 +7,7 @@ import random
 import vlib
 from props import runlib
 
-THEOREMS = ["RootSim.C01.forward_records_outputs", "RootSim.C01.matchStraggler_spec", "RootSim.C01.lp_state_is_fold",
+THEOREMS = ["RootSim.C01.history_stays_sorted", "RootSim.C01.forward_records_outputs", "RootSim.C01.matchStraggler_spec", "RootSim.C01.lp_state_is_fold",
             "RootSim.C05LP.run_exact"]
 
 
@@ -79,7 +79,7 @@ def run(ctx):
                     "remote-message paths of process.c/mpi.c (remote anti-messages, early anti-messages, id stamping) are NOT modelled at LP level: "
                     "they are covered only through the committed outcome (partial)"]
     ctx.assumptions += ["valid-model contract V1-V5", "runs that hang at shutdown (known finding F1, multi-rank variant) are compared up to the hang"]
-    runlib.lean_part(ctx, "RootSim.Props.C01", THEOREMS)
+    runlib.lean_part(ctx, "RootSim.Props.C01Sorted", THEOREMS)
     srcs = [os.path.join(vlib.HARNESS, "hrun.c")] + ctx.core_sources(mpi=True)
     if not ctx.cc("hrun_mpi", srcs, mpi=True):
         return
